@@ -526,19 +526,34 @@ def add_fact(facts: Dict[Term, bool], cond: Term, truth: bool):
         facts.setdefault(("lt", p_neg(pc[1])), False)      # p<0  =>  not(-p<0)
 
 
-def specialize(t: Term, facts: Dict[Term, bool]) -> Term:
-    """Simplify t knowing the truth value of some condition terms."""
+def specialize(t: Term, facts: Dict[Term, bool], boolpos: bool = False) -> Term:
+    """Simplify t knowing the truth value of some condition terms.  A fact is only used where its term stands in
+    condition position (test of a conditional expression, operand of and/or/not, or the whole term when
+    ``boolpos``); the same term used as a *value* (``P[0]`` when ``P`` is known to be non-empty) is left alone."""
     if not facts:
         return t
 
-    def rec(x: Term) -> Term:
+    def cond(x: Term) -> Term:
         if x in facts:
             return C(facts[x])
-        px, pol = positive(x) if x[0] in _NEG_TAGS else (x, True)
-        if px in facts:
-            return C(facts[px] if pol else not facts[px])
-        return rebuild(x, rec)
-    return rec(t)
+        if x[0] in _NEG_TAGS:
+            px, pol = positive(x)
+            if px in facts:
+                return C(facts[px] if pol else not facts[px])
+        tag = x[0]
+        if tag == "and":
+            return mk_and([cond(y) for y in x[1]])
+        if tag == "or":
+            return mk_or([cond(y) for y in x[1]])
+        if tag == "not":
+            return mk_not(cond(x[1]))
+        return val(x)
+
+    def val(x: Term) -> Term:
+        if x[0] == "select":
+            return mk_select(cond(x[1]), val(x[2]), val(x[3]))
+        return rebuild(x, val)
+    return cond(t) if boolpos else val(t)
 
 
 # ---------------------------------------------------------------------- pretty printing
